@@ -31,7 +31,11 @@ EPS = 1e-5
 def _case(draw, tier):
     spec = draw(sdes.generic_specs(max_d=3, max_m=3, max_batch=2))
     return {"spec": spec, "seed": draw(st.integers(0, 2 ** 31 - 1)), "t": draw(st.sampled_from([0.0, 0.4, -0.7, 1.3])),
-            "grad_enabled": draw(st.booleans())}
+            "grad_enabled": draw(st.booleans()),
+            # one AdjointSDE object serves a whole backward pass: optionally it is first evaluated at a later forward time,
+            # where (regime switch) the diffusion is a constant without state or parameters, and only then at the point
+            # under test - what it returns there must not depend on what it was asked before
+            "warmup_regime": draw(st.sampled_from([None, None, "constant_diffusion_first", "same_regime_first"]))}
 
 
 def strategy(tier):
@@ -94,6 +98,9 @@ def _flat(parts):
 def run_case(case):
     from torchsde._core import adjoint_sde, base_sde
     spec = case["spec"]
+    warm = case.get("warmup_regime")
+    if warm == "constant_diffusion_first":
+        spec = dict(spec, gswitch=case["t"] + 0.5)       # the point under test lies before the switch
     sde = sdes.build_generic(spec)
     nt, ito = spec["noise_type"], spec["sde_type"] == "ito"
     B, d, m = spec["batch"], spec["d"], spec["m"]
@@ -164,6 +171,14 @@ def run_case(case):
                 "oracle_selfcheck", f"autograd VJP and central differences disagree ({e:.3e}) - oracle defect", sig))
 
     ctx = torch.enable_grad() if case["grad_enabled"] else torch.no_grad()
+    if warm:
+        t_warm = torch.tensor(-(case["t"] + 1.0), dtype=torch.float64)      # forward time t + 1 (after the switch, if any)
+        with ctx:
+            adj.f(t_warm, y_aug_leaf())
+            adj.g_prod(t_warm, y_aug_leaf(), v.clone())
+            adj.f_and_g_prod(t_warm, y_aug_leaf(), v.clone())
+            if nt == "diagonal":
+                adj.g_prod_and_gdg_prod(t_warm, y_aug_leaf(), v.clone(), v2.clone())
     with ctx:
         f_out = adj.f(t_adj, y_aug_leaf())
         g_out = adj.g_prod(t_adj, y_aug_leaf(), v.clone())
@@ -226,7 +241,8 @@ def run_case(case):
             return Result(nontrivial=True, checks=checks, metrics=worst, fail=Fail(
                 "second_derivative", f"derivative of the adjoint fields w.r.t. the augmented state ({an:.8g}) differs "
                                      f"from central differences ({fdv:.8g})", sig))
-    labels = [f"{spec['sde_type']}/{nt}", "grad_enabled" if case["grad_enabled"] else "no_grad"]
+    labels = [f"{spec['sde_type']}/{nt}", "grad_enabled" if case["grad_enabled"] else "no_grad"] + \
+        ([f"warmup={warm}"] if warm else [])
     return Result(nontrivial=(d >= 2 or B >= 2), labels=labels, checks=checks,
                   metrics={f"relerr/{k}": v_ for k, v_ in worst.items()})
 
